@@ -10,16 +10,18 @@ from vlib.hk import CFG, begin, ok, fail, skip, B, run, cat, concrete
 envkit.install()
 
 
-def _req(role, i, origin, d, body):
+def _req(role, i, origin, d, body, close=False):
     p = b'/r%d' % i + B(d)
     if role == 'forward':
         head = (b'POST' if body else b'GET') + b' http://' + origin + p + b' HTTP/1.1\r\nHost: ' + origin + b'\r\n'
     elif role == 'web':
-        head = (b'POST' if body else b'GET') + b' /hello' + p + b' HTTP/1.1\r\nHost: x\r\n'
+        head = (b'POST' if body else b'GET') + b' /' + origin + p + b' HTTP/1.1\r\nHost: x\r\n'
     else:
         head = (b'POST' if body else b'GET') + (b' /get' if origin == b'up1.example' else (b' /lit' if origin == b'literal' else b' /api/x')) + b' HTTP/1.1\r\nHost: x\r\nX-I: ' + (b'%d' % i) + B(d) + b'\r\n'
     if body:
         head = head + b'Content-Length: 2\r\n'
+    if close:
+        head = head + b'Connection: close\r\n'
     return head + b'\r\n' + (b'B' + (b'%d' % i) if body else b'')
 
 
@@ -65,7 +67,8 @@ def persistent(d0: int, d1: int, d2: int, order: int) -> bool:
             return skip()
         order = 1       # the client waits for each response before sending on
     ds = [d0, d1, d2]
-    reqs = [_req(role, i, origins[i], ds[i], bodies[i]) for i in range(n)]
+    close_last = CFG.get('close_last', False)      # the client announces, with its last request, that it will close afterwards
+    reqs = [_req(role, i, origins[i], ds[i], bodies[i], close_last and i == n - 1) for i in range(n)]
     stream = b''
     for r in reqs:
         stream = stream + r
@@ -86,7 +89,7 @@ def persistent(d0: int, d1: int, d2: int, order: int) -> bool:
         segs = [stream[:c], stream[c:]]
     with concrete():
         env = envkit.new_env()
-        xk = envkit.Executor(scen.FLAGS[{'forward': 'forward', 'web': 'web', 'reverse': 'all'}[role]], env)
+        xk = envkit.Executor(scen.FLAGS[{'forward': 'forward', 'web': 'web2', 'reverse': 'all'}[role]], env)
         cs = xk.accept('client')
 
         def factory(addr):
@@ -141,7 +144,8 @@ def persistent(d0: int, d1: int, d2: int, order: int) -> bool:
             return fail('exception escaped the executor loop', exc=repr(e), step=step)
         if cs.closed:
             break
-    if cs.closed:
+    unrouted = role == 'web' and b'none' in origins
+    if cs.closed and not close_last and not unrouted:
         return fail('proxy closed the persistent connection although neither side asked to', out=repr(cs.out[-80:]))
     # responses seen by the client
     resp = []
@@ -158,7 +162,12 @@ def persistent(d0: int, d1: int, d2: int, order: int) -> bool:
     ups = [s for a, s in env.connects if not isinstance(s, BaseException)]
     if role == 'web':
         for i in range(n):
-            want = b'hello:/hello/r%d' % i + B(ds[i])
+            if origins[i] == b'none':
+                # a request naming no route is answered 404 (and the connection closed), as for a first request
+                if resp[i]['start'][1] != b'404':
+                    return fail('request %d names no route but was not answered 404' % i, start=repr(resp[i]['start']))
+                continue
+            want = origins[i] + b':/' + origins[i] + b'/r%d' % i + B(ds[i])
             if resp[i]['body'] != want:
                 return fail('response %d is not the one of request %d' % (i, i), got=repr(resp[i]['body']), want=repr(want))
         return ok()
@@ -202,7 +211,7 @@ def obligations(tier):
 
     def add(name, **cfg):
         obs.append({'name': name, 'fn': 'persistent', 'cfg': cfg, 'timeout': T})
-    for role, same, other in (('forward', 'o1.example', 'o2.example'), ('web', 'x', 'x'), ('reverse', 'up1.example', 'up2.example')):
+    for role, same, other in (('forward', 'o1.example', 'o2.example'), ('web', 'hello', 'bye'), ('reverse', 'up1.example', 'up2.example')):
         for n in (1, 2) if tier == 'quick' else (1, 2, 3):
             olists = [[same] * n]
             if n >= 2 and other != same:
@@ -225,6 +234,15 @@ def obligations(tier):
                         cuts = [5, l1 - 2, l1 - 1, l1 + 1, l1 + 3, l1 + 20] if tier == 'quick' else list(range(1, 2 * l1, 3))
                         for c in cuts:
                             add('%s.n2.%s.cut%d' % (role, tag, c), role=role, n=2, origins=ol, packing=['cut', c])
+    # the last request announces "Connection: close": it is still answered (the connection may close afterwards)
+    for role, same in (('forward', 'o1.example'), ('web', 'hello'), ('reverse', 'up1.example')):
+        for n in (1, 2):
+            for packing in ('separate', 'together'):
+                if n == 1 and packing == 'together':
+                    continue
+                add('%s.n%d.close_last.%s' % (role, n, packing), role=role, n=n, origins=[same] * n, packing=packing, close_last=True)
+    add('web.n2.unrouted.separate', role='web', n=2, origins=['hello', 'none'], packing='separate')
+    add('web.n2.unrouted.together', role='web', n=2, origins=['hello', 'none'], packing='together')
     for ol, tag in ((['up1.example', 'literal'], 'upstream_then_literal'), (['literal', 'up1.example'], 'literal_then_upstream'),
                     (['up1.example', 'literal', 'up1.example'], 'upstream_literal_upstream')):
         add('reverse.n%d.%s.separate' % (len(ol), tag), role='reverse', n=len(ol), origins=ol, packing='separate')
@@ -235,13 +253,14 @@ def obligations(tier):
 META = {
     'bounds': {
         'quick': '1-2 (thorough 3) requests on one connection, in three roles (forward proxy, web-server route, reverse proxy), to the same or to '
-                 'different origins/routes, with and without bodies; packing: one request per segment, all in one segment, split at 6 positions '
+                 'different origins/routes (web: two independent route plugins, and a follow-up naming no route), with and without bodies, the last '
+                 'request optionally announcing Connection: close; packing: one request per segment, all in one segment, split at 6 positions '
                  'around the request boundary; upstream stubs answer every request they have completely received with a response naming the '
                  'origin and the request; a symbolic bit decides whether the client waits for answers before sending on; one symbolic path '
                  'byte per request; real executor loop',
         'thorough': '3 requests, cuts at every third position',
     },
-    'outside': 'more than 3 requests, Connection: close semantics, HTTP/1.0 clients, responses larger than one segment, TLS',
+    'outside': 'more than 3 requests, Connection: close on other than the last request, HTTP/1.0 clients, responses larger than one segment, TLS',
     'stubs': ['FakeSocket/connect stub per origin/FakeSelector(auto)/FakeLoop', 'upstream stub parses what it received with the reference '
               'reader and answers each complete request once'],
 }
